@@ -151,6 +151,55 @@ def scan(state, groups, tid):
         t0 = 1e-3 * min(a, b) ** 2 / kap
         for fx, fy in ((0.3, 0.3), (0.5, 0.5), (0.6, 0.7)):
             pt(fx * a, {"initial": bal([T(fx * a, fy * b, t0), 0.0], Ts)})
+    elif fam == "CylSandwich":
+        from exactpack.solvers.heat import CylindricalSandwich
+        p = {k: G.value(v) for k, v in state["par"].items()}
+        s = CylindricalSandwich(**p)
+        a, b, kap, T0, T1 = p["a"], p["b"], p["kappa"], p["T0"], p["T1"]
+        tt = t * (b - a) ** 2 / kap
+        Ts = max(abs(T0), abs(T1), 1.0)
+        hr, hth, ht = 2e-3 * (b - a), 2e-3 * math.pi / 2, 1e-3 * tt
+        interior = [(a + 0.25 * (b - a), 0.5), (a + 0.6 * (b - a), 0.9), (a + 0.85 * (b - a), 0.3)]
+        R, TH = [], []
+        for r, th in interior:                              # 9-point cross per interior point
+            R += [r + q * hr for q in (-2, -1, 0, 1, 2)] + [r] * 4
+            TH += [th] * 5 + [th + q * hth for q in (-2, -1, 1, 2)]
+        edge_r = [a + 0.3 * (b - a), a + 0.7 * (b - a)]
+        for r in edge_r:                                    # the two straight edges theta = 0, pi/2
+            R += [r, r]; TH += [0.0, math.pi / 2]
+        edge_th = [0.5, 1.0]
+        for th in edge_th:                                  # one-sided stencils at the inner and outer arc
+            R += [a + q * hr for q in range(5)] + [b - q * hr for q in range(5)]
+            TH += [th] * 10
+        pts = np.array([R, TH], float)
+
+        def T(time):
+            stats["evals"] += pts.shape[1]
+            return np.asarray(G.call(s, pts, time)["temperature"], float)   # every call recomputes the eigenvalues (8 s): one call per time level
+        F = {q: T(tt + q * ht) for q in (-2, -1, 0, 1, 2)}
+        f = F[0]
+        for i, (r, th) in enumerate(interior):
+            o = 9 * i
+            Tt = (8 * (F[1][o + 2] - F[-1][o + 2]) - (F[2][o + 2] - F[-2][o + 2])) / (12 * ht)
+            Trr = (-f[o + 4] + 16 * f[o + 3] - 30 * f[o + 2] + 16 * f[o + 1] - f[o]) / (12 * hr * hr)
+            Tr = (8 * (f[o + 3] - f[o + 1]) - (f[o + 4] - f[o])) / (12 * hr)
+            Tqq = (-f[o + 8] + 16 * f[o + 7] - 30 * f[o + 2] + 16 * f[o + 6] - f[o + 5]) / (12 * hth * hth)
+            pt(r, {"heat": bal([Tt / kap, -Trr, -Tr / r, -Tqq / (r * r)], Ts / (b - a) ** 2)}, fin=np.isfinite(f[o + 2]))
+        o = 27
+        for j, r in enumerate(edge_r):
+            pt(r, {"bc-bottom": bal([f[o + 2 * j], -T0], Ts), "bc-top": bal([f[o + 2 * j + 1], -T1], Ts)})
+        o = 31
+        for j, th in enumerate(edge_th):
+            ia, ib = f[o + 10 * j:o + 10 * j + 5], f[o + 10 * j + 5:o + 10 * j + 10]
+            da = (-25 * ia[0] + 48 * ia[1] - 36 * ia[2] + 16 * ia[3] - 3 * ia[4]) / (12 * hr)
+            db = (-25 * ib[0] + 48 * ib[1] - 36 * ib[2] + 16 * ib[3] - 3 * ib[4]) / (12 * -hr)
+            pt(a, {"bc-left": bal([da * (b - a), 0.0], Ts), "bc-right": bal([db * (b - a), 0.0], Ts)})
+        f0 = T(1e-4 * (b - a) ** 2 / kap)
+        finf = T(50.0 * (b - a) ** 2 / kap)
+        for i, (r, th) in enumerate(interior):
+            o = 9 * i + 2
+            pt(r, {"initial": bal([f0[o], 0.0], Ts),                       # declared: T(r, theta, 0) = 0
+                   "steady": bal([finf[o], -(T0 + 2 * th * T1 / math.pi)], Ts)})   # the stated steady solution
     elif fam == "Hutchens2":
         from exactpack.solvers.heat import Hutchens2
         p = {k: G.value(v) for k, v in state["par"].items()}
